@@ -224,6 +224,23 @@ CLAIMED["C12"] = dict(
     technique="Lean 4 proof (constant arithmetic) + metamorphic comparison with the substituted program",
 )
 
+CLAIMED["C17"] = dict(
+    text="Lean theorems C17_unbound_identifier, C17_condition_not_bool, C17_operand_types, C17_refutable_let, "
+         "C17_refutable_loop_pattern, C17_unknown_function, C17_argument_count, C17_assign_unbound, C17_no_arm: in the source "
+         "semantics a program that breaks one of these static rules has no meaning - evaluation ends in Err.stuck, neither a "
+         "value nor a panic - so accepting it would compile something the specification does not define. PARTIAL: check.rs is "
+         "not modelled; that it rejects every rule violation is explored by mutation: into generated well-typed programs a "
+         "fixed typed prelude plus ONE rule-breaking statement or top-level item is inserted (120 shapes: operand / argument / "
+         "field / branch / pattern / return types, non-Boolean conditions, unknown and out-of-scope identifiers, fields, "
+         "variants, functions, types, assignment to immutable bindings, argument / field / tuple counts, refutable patterns in "
+         "let / for, non-exhaustive matches, loops over non-arrays, direct / mutual recursion, unused private functions, pub fn "
+         "without parameters, duplicate parameters, mistyped constants); every mutant must be rejected with a type error, the "
+         "prelude alone must be accepted.",
+    design_ref="DESIGN.md §6 C17",
+    note="trusted: Lean kernel; the list of rule-breaking shapes is hand-written (tools/gv/c17.py), one violation per program",
+    technique="Lean 4 proof (rule violations are stuck in the semantics) + mutation testing of the type checker",
+)
+
 CLAIMED["C06"] = dict(
     text="(1) Kernel-checked obligation extracted_hashIterSites: the list of HashMap/HashSet iteration sites of /repo/src, REGENERATED "
          "from the source on every run, equals the audited list in which every site carries the reason why its order cannot reach "
